@@ -882,7 +882,7 @@ def gen_src(unit_name):
 
 
 # dialect modules of the Rust→Lean translator, in lookup order (tools/<name>.py)
-TRANSLATOR_MODULES = ["rs2lean", "rs2lean_pm", "rs2lean_fm"]
+TRANSLATOR_MODULES = ["rs2lean", "rs2lean_pm", "rs2lean_fm", "rs2lean_cfbase"]
 GEN_SRC = {n: gen_src(n) for n in ("SrcKmpLps", "SrcShiftAndMasks", "SrcHorspoolNew", "SrcFenwick", "SrcBitEnc", "SrcBwt", "SrcPrescan")}
 # (genbits) bit-packed containers: SmallInts (C18, C03), RankSelect and WaveletMatrix (C17)
 GEN_SRC.update({n: gen_src(n) for n in ("SrcSmallInts", "SrcRankSelect", "SrcWavelet")})
